@@ -61,6 +61,22 @@ CHECKS = {
         'note': 'Directory entries are built from two valid names and three content classes; invalid names belong to C03.',
         'parts': [GoBin('dirs', 'harness/c16', agent=True), GoBin('histories', 'harness/c01', env={'VERIF_AS': 'C16'})],
     },
+    'C04': {
+        'level': 'exploration',
+        'engine': 'seqx',
+        'technique': 'exhaustive product enumeration store states x user names x passwords x frontends with store.Dir.Authenticate as reference verdict',
+        'text': 'Every credential pair of the alphabet (transport-special bytes, boundary lengths, near misses) is submitted through each frontend (real saslauthd socket + bundled client, basic-auth, API authenticate, LDAP bind handler, built binary) and compared with the library verdict on the same directory; records that make the store fail internally must be denied everywhere.',
+        'note': 'LDAP below the bind handler (BER parsing in the glauth library) and TLS listeners are not enumerated.',
+        'parts': [RwTest('frontends', 'cmd/whawty-auth', ['harness/agentseq'], AGENT_SEQ, '^TestC04$', agent=True)],
+    },
+    'C17': {
+        'level': 'exploration',
+        'engine': 'seqx',
+        'technique': 'exhaustive product enumeration policy conditions x passwords x user names x write paths; policy-string grammar enumeration',
+        'text': 'For every cell the verdict of the real agent (in-process write paths, HTTP API by every caller role, local hash upgrade, built binary) is compared with zxcvbn evaluated directly; refused requests must leave the store unchanged; every policy configuration string of the enumeration must be accepted/refused as the grammar says.',
+        'note': 'zxcvbn itself is trusted; passwords are a fixed list spanning all five scores.',
+        'parts': [RwTest('policy', 'cmd/whawty-auth', ['harness/agentseq'], AGENT_SEQ, '^TestC17$', agent=True)],
+    },
     'C06': {
         'level': 'model_checking',
         'engine': 'seqx',
